@@ -226,6 +226,8 @@ bool Table::OnBuildStart() {
 }
 
 bool Table::OnBuildFinish() {
+  // patches the string ids of all entries through pointers into the mapping,
+  // so this must happen before the file can grow again.
   string_table_builder_->Build();
   // saving string table image
   size_t image_size = string_table_builder_->BinarySize();
@@ -234,6 +236,15 @@ bool Table::OnBuildFinish() {
     LOG(ERROR) << "Error creating string table image.";
     return false;
   }
+  // Allocate() may have grown the file and mapped it at another address;
+  // pointers obtained before are no longer valid.
+  metadata_ = Find<table::Metadata>(0);
+  if (!metadata_) {
+    LOG(ERROR) << "metadata not found.";
+    return false;
+  }
+  syllabary_ = metadata_->syllabary.get();
+  index_ = metadata_->index.get();
   string_table_builder_->Dump(image, image_size);
   metadata_->string_table = image;
   metadata_->string_table_size = image_size;
@@ -311,14 +322,74 @@ uint32_t Table::dict_file_checksum() const {
   return metadata_ ? metadata_->dict_file_checksum : 0;
 }
 
+// The index is built through raw pointers and references into the mapped file
+// (index nodes, entry lists, string id references kept by the string table
+// builder), none of which survive MappedFile::Allocate growing the file.
+// Compute an upper bound of the space the index takes, so that the file is
+// created large enough and never grows before OnBuildFinish().
+static const size_t kAllocPadding = alignof(table::Entry);
+
+static size_t EntryListSize(const ShortDictEntryList& entries) {
+  return sizeof(table::Entry) * entries.size() + kAllocPadding;
+}
+
+static size_t TailIndexSize(const Vocabulary& vocabulary) {
+  auto page = vocabulary.find(-1);
+  if (page == vocabulary.end())
+    return 0;
+  const auto& entries = page->second.entries;
+  size_t size = sizeof(uint32_t) + sizeof(table::LongEntry) * entries.size() +
+                kAllocPadding;
+  for (const auto& e : entries) {
+    size_t code_length = e->code.size();
+    if (code_length > Code::kIndexCodeMaxLength)
+      size += sizeof(SyllableId) * (code_length - Code::kIndexCodeMaxLength);
+    size += kAllocPadding;
+  }
+  return size;
+}
+
+// code_length: length of the codes indexed by the nodes of this level.
+static size_t TrunkIndexSize(const Vocabulary& vocabulary, size_t code_length) {
+  size_t size = sizeof(uint32_t) +
+                sizeof(table::TrunkIndexNode) * vocabulary.size() +
+                kAllocPadding;
+  for (const auto& v : vocabulary) {
+    size += EntryListSize(v.second.entries);
+    if (v.second.next_level) {
+      size += code_length < Code::kIndexCodeMaxLength
+                  ? TrunkIndexSize(*v.second.next_level, code_length + 1)
+                  : TailIndexSize(*v.second.next_level);
+    }
+  }
+  return size;
+}
+
+static size_t HeadIndexSize(const Vocabulary& vocabulary,
+                            size_t num_syllables) {
+  size_t size = sizeof(uint32_t) +
+                sizeof(table::HeadIndexNode) * num_syllables + kAllocPadding;
+  for (const auto& v : vocabulary) {
+    size += EntryListSize(v.second.entries);
+    if (v.second.next_level)
+      size += TrunkIndexSize(*v.second.next_level, 2);
+  }
+  return size;
+}
+
 bool Table::Build(const Syllabary& syllabary,
                   const Vocabulary& vocabulary,
                   size_t num_entries,
                   uint32_t dict_file_checksum) {
   const size_t kReservedSize = 4096;
   size_t num_syllables = syllabary.size();
+  size_t index_size = sizeof(table::Metadata) + sizeof(uint32_t) +
+                      sizeof(table::StringType) * num_syllables +
+                      2 * kAllocPadding +
+                      HeadIndexSize(vocabulary, num_syllables);
   size_t estimated_file_size =
-      kReservedSize + 32 * num_syllables + 64 * num_entries;
+      (std::max)(kReservedSize + 32 * num_syllables + 64 * num_entries,
+                 kReservedSize + index_size);
   LOG(INFO) << "building table.";
   LOG(INFO) << "num syllables: " << num_syllables;
   LOG(INFO) << "num entries: " << num_entries;
